@@ -34,11 +34,15 @@ def run_replay(pid, path):
     with open(path) as f:
         rp = json.load(f)
     rec = rp['record']
+    history = rp.get('history', [])      # records the same process executed before (only for failures that depend on process history)
     if hasattr(mod, 'prepare'):
-        mod.prepare(rp.get('tier', 'quick'), [rec])
+        mod.prepare(rp.get('tier', 'quick'), history + [rec])
     known = core.load_known(pid)
-    res = core.execute_records(pid, [(0, rec)], batch=1, nproc=1,
-                               hard_timeout=getattr(mod, 'HARD_TIMEOUT', 600.0) * 2)[0]
+    seq = history + [rec]
+    res = core.execute_records(pid, list(enumerate(seq)), batch=len(seq), nproc=1,
+                               hard_timeout=getattr(mod, 'HARD_TIMEOUT', 600.0) * 2 * len(seq))[len(seq) - 1]
+    if history:
+        log(f'replaying {len(history)} earlier record(s) of the same process before the failing one')
     viol, hits = core.split_failures(res, known)
     for k, f in hits:
         log(f"KNOWN-FINDING: property={pid} {k['id']} {f['check']}: {f['detail']}")
@@ -169,13 +173,28 @@ def main():
         i, v = lst[0]
         rec = recmap[i]
         log(f'FAILURE {check} in {len(lst)} runs; first run index {i}: {v["detail"]} ctx={json.dumps(v["ctx"], default=str)}')
-        if not args.no_shrink:
+        history = []
+        bsz = plan.get('batch', 1)
+        pos = [j for j, _ in recs].index(i)
+        alone = True
+        if pos % bsz:
+            alone = core.fails_in_sequence(pid, [rec], check, known, plan.get('hard_timeout', 600.0), plan.get('soft_timeout'))
+        if not alone:
+            # the record does not fail in a process of its own: what the same worker process executed before it is part of the history
+            history = [r for _, r in recs[pos - pos % bsz:pos]]
+            log(f'  run {i} does not fail in a fresh process; replaying it after the {len(history)} earlier record(s) of its batch')
+            if not args.no_shrink and core.fails_in_sequence(pid, history + [rec], check, known, plan.get('hard_timeout', 600.0), plan.get('soft_timeout')):
+                history = core.shrink_history(pid, history, rec, check, known, soft_timeout=plan.get('soft_timeout'), hard_timeout=plan.get('hard_timeout', 600.0), log=log)
+        elif not args.no_shrink:
             rec, acc = core.shrink(pid, rec, check, known, time_budget=plan.get('shrink_budget', 180.0),
                                    soft_timeout=plan.get('soft_timeout'), hard_timeout=plan.get('hard_timeout', 600.0), log=log)
         path = os.path.join(VERIF, 'replays', f'{pid}-{check.replace("/", "_")}-{args.seed}-{i}.json')
         with open(path, 'w') as f:
-            json.dump({'property': pid, 'tier': tier, 'seed': args.seed, 'index': i, 'check': check,
-                       'detail': v['detail'], 'record': rec}, f, indent=1, default=str)
+            doc = {'property': pid, 'tier': tier, 'seed': args.seed, 'index': i, 'check': check, 'detail': v['detail'], 'record': rec}
+            if history:
+                doc['history'] = history
+                doc['note'] = 'the failure depends on state the code under test keeps outside its model objects: the records in "history" are executed first, in the same process'
+            json.dump(doc, f, indent=1, default=str)
         # confirm in a fresh interpreter
         cp = subprocess.run([os.path.join(VERIF, 'check'), pid, '--replay', path], capture_output=True, text=True)
         if cp.returncode == 1 and f'failing check: {check}' in cp.stdout:
